@@ -80,6 +80,98 @@ func allProbes() []probe {
 	ps = append(ps, probe{name: "order:template", sig: "eval-order:template", p: pre(decl("r", &gen.TemplateLit{Parts: []gen.TemplPart{{X: t(1)}, {Text: "-"}, {X: t(2)}}}))})
 	ps = append(ps, probe{name: "order:method-args", sig: "eval-order:method-args", p: pre(decl("r", &gen.MethodCall{X: call(id("t"), list(in(9))), Name: "append", Args: []gen.Expr{t(2)}}))})
 	ps = append(ps, probe{name: "order:assign-index-value-only", sig: "eval-order:index-assign", p: pre(decl("a", list(in(0), in(0))), &gen.Assign{Target: &gen.Index{X: id("a"), I: in(1)}, Op: "=", X: t(4)}, es(id("a")))})
+	// 3. lexical scoping and shadowing: a name resolves to the innermost declaration compiled before the use
+	ifT := func(body ...gen.Stmt) gen.Stmt {
+		return es(&gen.IfExpr{Cond: &gen.BoolLit{V: true}, Then: body})
+	}
+	asg := func(n string, e gen.Expr) gen.Stmt { return &gen.Assign{Target: id(n), Op: "=", X: e} }
+	add := func(a, b gen.Expr) gen.Expr { return &gen.Binary{Op: "+", L: a, R: b} }
+	fnlit := func(params []string, body ...gen.Stmt) *gen.FuncLit {
+		f := &gen.FuncLit{Body: body}
+		for _, p := range params {
+			f.Params = append(f.Params, gen.Param{Name: p})
+		}
+		return f
+	}
+	ret := func(e gen.Expr) gen.Stmt { return &gen.Return{X: e} }
+	scope := func(name string, stmts ...gen.Stmt) {
+		ps = append(ps, probe{name: "scope:" + name, sig: "scoping:" + name, p: &gen.Program{Stmts: stmts}})
+	}
+	// free variable used first, then shadowed in a block, then used from a deeper block (read)
+	scope("free-then-shadow-in-block-read",
+		&gen.FuncDecl{F: &gen.FuncLit{Name: "outer", Body: []gen.Stmt{
+			decl("x", str("outer")),
+			decl("inner", fnlit(nil,
+				decl("a", id("x")),
+				ifT(decl("x", str("shadow")), ifT(asg("a", add(add(id("a"), str("/")), id("x"))))),
+				ret(id("a")))),
+			ret(call(id("inner")))}}},
+		es(call(id("outer"))))
+	// ... (write): the shadow is updated from deeper blocks, the captured outer binding stays untouched
+	scope("free-then-shadow-in-block-write",
+		&gen.FuncDecl{F: &gen.FuncLit{Name: "outer", Body: []gen.Stmt{
+			decl("x", in(100)),
+			decl("inner", fnlit(nil,
+				decl("y", id("x")),
+				decl("z", in(0)),
+				ifT(decl("x", in(0)),
+					&gen.For{Kind: "three", Init: decl("i", in(0)), Cond: &gen.Binary{Op: "<", L: id("i"), R: in(3)}, Post: &gen.IncDec{Name: "i", Op: "++"}, Body: []gen.Stmt{
+						ifT(&gen.Assign{Target: id("x"), Op: "+=", X: in(2)})}},
+					asg("z", id("x"))),
+				ret(list(id("y"), id("z"), id("x"))))),
+			ret(list(call(id("inner")), id("x")))}}},
+		es(call(id("outer"))))
+	// a closure compiled before a later declaration of the same name in an enclosing scope keeps the outer binding
+	scope("closure-before-later-declaration",
+		decl("g", in(1)),
+		&gen.FuncDecl{F: &gen.FuncLit{Name: "f", Body: []gen.Stmt{
+			decl("bump", fnlit(nil, &gen.Assign{Target: id("g"), Op: "+=", X: in(10)}, ret(id("g")))),
+			decl("g", str("local")),
+			ret(list(call(id("bump")), id("g")))}}},
+		es(list(call(id("f")), id("g"))))
+	// parameter shadowed in the body's first block, loop variable shadowing an outer name, nested function parameter shadowing
+	scope("param-and-loop-shadowing",
+		decl("i", str("global-i")),
+		&gen.FuncDecl{F: &gen.FuncLit{Name: "f", Params: []gen.Param{{Name: "p"}}, Body: []gen.Stmt{
+			decl("acc", list()),
+			ifT(decl("p", add(id("p"), in(100))), es(&gen.MethodCall{X: id("acc"), Name: "append", Args: []gen.Expr{id("p")}})),
+			&gen.For{Kind: "three", Init: decl("i", in(0)), Cond: &gen.Binary{Op: "<", L: id("i"), R: in(2)}, Post: &gen.IncDec{Name: "i", Op: "++"}, Body: []gen.Stmt{
+				decl("p", add(id("i"), in(7))),
+				es(&gen.MethodCall{X: id("acc"), Name: "append", Args: []gen.Expr{id("p")}})}},
+			decl("h", fnlit([]string{"p"}, ret(add(id("p"), in(1000))))),
+			es(&gen.MethodCall{X: id("acc"), Name: "append", Args: []gen.Expr{call(id("h"), in(1))}}),
+			ret(list(id("acc"), id("p"), id("i")))}}},
+		es(list(call(id("f"), in(1)), id("i"))))
+	// switch-case and else-branch scopes; sibling blocks do not see each other's declarations
+	scope("sibling-blocks",
+		&gen.FuncDecl{F: &gen.FuncLit{Name: "f", Params: []gen.Param{{Name: "k"}}, Body: []gen.Stmt{
+			decl("v", str("fn")),
+			es(&gen.SwitchExpr{Subject: id("k"), Cases: []gen.SwitchCase{
+				{Values: []gen.Expr{in(1)}, Body: []gen.Stmt{decl("v", str("case1")), asg("v", add(id("v"), str("!")))}},
+				{Default: true, Body: []gen.Stmt{asg("v", add(id("v"), str("+default")))}}}}),
+			es(&gen.IfExpr{Cond: &gen.Binary{Op: "==", L: id("k"), R: in(2)}, Then: []gen.Stmt{decl("v", str("then"))}, HasElse: true, Else: []gen.Stmt{asg("v", add(id("v"), str("+else")))}}),
+			ret(id("v"))}}},
+		es(list(call(id("f"), in(1)), call(id("f"), in(2)), call(id("f"), in(3)))))
+	// closures capture the shadow when created inside its block and the outer binding when created outside
+	scope("closures-capture-innermost",
+		&gen.FuncDecl{F: &gen.FuncLit{Name: "f", Body: []gen.Stmt{
+			decl("x", in(1)),
+			decl("fs", list()),
+			es(&gen.MethodCall{X: id("fs"), Name: "append", Args: []gen.Expr{fnlit(nil, &gen.Assign{Target: id("x"), Op: "+=", X: in(1)}, ret(id("x")))}}),
+			ifT(decl("x", in(50)),
+				es(&gen.MethodCall{X: id("fs"), Name: "append", Args: []gen.Expr{fnlit(nil, &gen.Assign{Target: id("x"), Op: "+=", X: in(1)}, ret(id("x")))}}),
+				ifT(es(&gen.MethodCall{X: id("fs"), Name: "append", Args: []gen.Expr{fnlit(nil, &gen.Assign{Target: id("x"), Op: "+=", X: in(5)}, ret(id("x")))}}))),
+			ret(list(call(&gen.Index{X: id("fs"), I: in(0)}), call(&gen.Index{X: id("fs"), I: in(1)}), call(&gen.Index{X: id("fs"), I: in(2)}), call(&gen.Index{X: id("fs"), I: in(0)}), id("x")))}}},
+		es(call(id("f"))))
+	// a named function literal's own name, shadowed by a local of the same name in a block
+	scope("self-name-shadowed",
+		decl("r", fnlit(nil)),
+		asg("r", &gen.FuncLit{Name: "me", Params: []gen.Param{{Name: "n"}}, Body: []gen.Stmt{
+			es(&gen.IfExpr{Cond: &gen.Binary{Op: "<=", L: id("n"), R: in(0)}, Then: []gen.Stmt{ret(in(0))}}),
+			ifT(decl("me", in(5)), es(&gen.IfExpr{Cond: &gen.Binary{Op: "==", L: id("n"), R: in(1)}, Then: []gen.Stmt{ret(add(id("me"), in(1)))}})),
+			ret(add(in(1), call(id("me"), &gen.Binary{Op: "-", L: id("n"), R: in(1)})))}}),
+		es(list(call(id("r"), in(1)), call(id("r"), in(3)))))
+
 	// known shapes (recorded findings are matched by these exact signatures)
 	ps = append(ps, probe{name: "order:in-operands", sig: "eval-order:in-operands-right-before-left",
 		p: pre(decl("r", &gen.InExpr{X: t(1), C: list(t(2))}))})
